@@ -115,7 +115,10 @@ CLAIMED = {
          "code word) and the reader model run on it - splitlines, lower-casing, time-code / word splitting, doubling memory, every control code, final flush - "
          "holds at the end exactly the captions' characters in order (written_file_rereads), and stores - apart from the times - exactly ONE caption per input caption, in "
          "order, whose nodes are the caption's rows separated by break nodes and whose position is the first row's (written_file_restored, stored_caption_is_rows: "
-         "end to end on the models of writer and reader, through store / formatItalics / toCaps as well). Executable model of _text_to_code, the pre-roll pass and _format_timestamp compared byte-for-byte with the writer's output; the output is "
+         "end to end on the models of writer and reader, through store / formatItalics / toCaps as well); with the START TIMES: the reader computes from the time "
+         "code the writer prints for an instant exactly floor(instant in frames) + k frames for the k-th word of the line (written_stamp_instant), every re-read caption "
+         "starts at the instant of its End-Of-Caption word (written_file_times), and that is between two and three frames before the caption's start whenever the "
+         "start leaves room for the transmission (shown_within_three_frames). Executable model of _text_to_code, the pre-roll pass and _format_timestamp compared byte-for-byte with the writer's output; the output is "
          "checked structurally (header, hex words, parity, rows, 32 columns, breaks at spaces only, non-decreasing timecodes, visible within 3 frames) and "
          "re-read with the real SCCReader (same words, one caption per caption)."),
    ref="§3 C17", technique="Lean 4 proof (decide +kernel over generated tables, omega) + byte-level correspondence + structural oracle + re-read",
@@ -144,7 +147,9 @@ CLAIMED = {
          "code words since the start of the line, (h*3600+m*60+s+(ff+k)/30) s - times 1001/1000 for non-drop-frame - minus the offset, floored at zero "
          "(instant_nondrop, instant_drop); EVERY word of a line, whatever it is, advances the frame count by exactly one (word_counts_one_frame, "
          "words_count_frames, by induction over the line) and the time recorded at the End-Of-Caption code is that instant (eoc_stamps_now); the frame duration 1001000/30 us is regenerated and pinned. Correspondence and an independent timing denotation "
-         "(EOC instant, next EDM/EOC, joining, tail, flash) on programs with drop/non-drop timecodes, doubling, inline/separate/absent erase commands, filler gaps of 0-7 frames, offsets."),
+         "(EOC instant, next EDM/EOC, joining, tail, flash) on programs with drop/non-drop timecodes, doubling, inline/separate/absent erase commands, filler gaps of 0-7 frames, offsets."
+         " For written files in which every caption has its own clearing line and the captions are at least five frames apart, the stored captions start at the "
+         "instant of their End-Of-Caption word and end at the instant of their clearing line, exactly (written_captions_start_and_end)."),
    ref="§3 C06", technique="Lean 4 proof over the reader model + differential correspondence + independent timing oracle",
    note=NOTE_COMMON + "Implementation times are floats: compared within 2^-10 us. At a gap of exactly five frames (within 1 us) either reading is accepted; an end instant floored to exactly 0 is outside the domain (collides with the 0 = 'no end yet' encoding)."),
  "C15": dict(
@@ -255,7 +260,8 @@ CLAIMED = {
          "pattern are regenerated from /repo and pinned. Own output: for the three writers modelled as whole documents the third clause is a theorem - "
          "the SRT writer's document for ANY cue list with visible text whose lines carry no other format's marker is detected as SRT (detect_own_srt: a marker "
          "cannot arise across line boundaries or from index/timing lines), the WebVTT writer's document for ANY text lines is detected as WebVTT (detect_own_vtt: "
-         "'<' is escaped, so '</tt>' cannot occur), the MicroDVD writer's document for lines without '</tt>' is detected as MicroDVD (detect_own_mdvd); the "
+         "'<' is escaped, so '</tt>' cannot occur), the MicroDVD writer's document for lines without '</tt>' is detected as MicroDVD (detect_own_mdvd), the SCC writer's document for ANY caption set of basic characters is detected as SCC (detect_own_scc: its "
+         "characters are those of the header, time codes, hex words, tabs, blanks and line feeds - no '<', no 'W', no leading '{', a first line that is no number); the "
          "writer models are tied to the writers document by document in this check. Correspondence: every word of length <=3 (quick) / <=4 (thorough) over 27 symbols, random "
          "longer words, every truncation of writer outputs, and all six writers' own outputs, evaluated on the implementation, the Lean model and the spec."),
    ref="§3 C20", technique="Lean 4 proof over an executable model + translator-pinned constants + differential correspondence (native driver)",
